@@ -59,6 +59,17 @@ def axis_obligations(fr, T, Fc, asc, df, dt, fch1):
     else:
         for i in range(T + 1):
             ob.append((f'ts_ext[{i}]', lift(ext[i]) != i * dtv))
+    # the extended axis follows the frame's own time axis wherever that starts (cadences shift it)
+    tau = z3.Real('t_origin')
+    ts_saved = fr.ts
+    fr.ts = fr.ts + Sym(tau)
+    ext2 = fr.ts_ext
+    fr.ts = ts_saved
+    if len(ext2) != T + 1:
+        ob.append(('ts_ext length (shifted)', z3.BoolVal(True)))
+    else:
+        for i in range(T + 1):
+            ob.append((f'ts_ext[{i}] (shifted origin)', lift(ext2[i]) != tau + i * dtv))
     a, b = z3.Real('ia'), z3.Real('ib')
     ob.append(('get_drift_rate', lift(fr.get_drift_rate(Sym(a), Sym(b))) != (b - a) * dfv / (T * dtv)))
     ob.append(('df', lift(fr.df) != dfv))
@@ -369,6 +380,9 @@ def replay_axes(p):
         msgs.append("t_stop")
     if not np.isclose(fr.get_drift_rate(1, 3), 2 * df / (T * dt), rtol=tol):
         msgs.append("get_drift_rate")
+    fr.ts = fr.ts + 1000.0
+    if len(fr.ts_ext) != T + 1 or not np.allclose(fr.ts_ext, 1000.0 + np.arange(T + 1) * dt, rtol=tol, atol=tol * dt):
+        msgs.append(f"ts_ext on a time axis starting at 1000.0: {fr.ts_ext!r}")
     return bool(msgs), '; '.join(msgs) or 'axes agree'
 
 
